@@ -466,7 +466,7 @@ class Interp(ExprMixin, StmtMixin):
     builtin_models_by_name: dict = {}
 
     # ------------------------------------------------------------------ driving a function
-    def run_function(self, qualname, make_args, axioms=(), setup=None, timeout_ms=2000, max_paths=4000):
+    def run_function(self, qualname, make_args, axioms=(), setup=None, timeout_ms=2000, max_paths=4000, name_prefix=""):
         """Explore all paths of the function ``qualname``.
 
         make_args(interp, path) -> (args, kwargs[, self_obj])
@@ -519,7 +519,7 @@ class Interp(ExprMixin, StmtMixin):
                 out = Outcome("unsupported", value="engine: unbounded recursion while interpreting")
             return out, list(self.obligations), list(self.frame_writes), (made[2] if len(made) > 2 else None)
 
-        for p, res in explore(one, axioms=axioms, max_paths=max_paths, timeout_ms=timeout_ms):
+        for p, res in explore(one, axioms=axioms, max_paths=max_paths, timeout_ms=timeout_ms, name_prefix=name_prefix):
             results.append((p,) + tuple(res))
         return results
 
